@@ -136,6 +136,11 @@ def compute_fixed_resolution_buffer(data, bounds, target_data=None, target_cid=N
         if isinstance(bound, tuple) and bound[2] < 1:
             raise ValueError(f"Number of steps in bounds should be >=1 but got bound={bound}")
 
+    # Convert Numpy scalars to Python scalars, since comparing a Numpy scalar
+    # with a tuple gives an array rather than False, which causes issues when
+    # comparing the bounds with the cached ones below.
+    bounds = [bound.item() if isinstance(bound, np.generic) else bound for bound in bounds]
+
     # If cache_id is specified, we keep a cached version of the resulting array
     # indexed by cache_id as well as a hash formed of the call arguments to this
     # function. We then check if the resulting array already exists in the cache.
